@@ -464,6 +464,8 @@ def witness_cases():
                                                              ("iface", "ILater", None, [("method", "close", [], False, None)])])))
     W.append(("K_small_obj_struct_bundled", ("c", "rust"), fs1([("struct", "SS", [("interface", 1, "o")]),
                                                                ("iface", "IW", None, [("method", "m", [("in", "SS", None, "p0"), ("in", "uint32", None, "p1")], False, None)])])))
+    W.append(("K_upper_cased_names_collide", ("rust", "java"), fs1([("iface", "IW", None, [("const", "uint32", "Lim", "3"), ("const", "uint32", "LIM", "4"), ("error", "Busy"), ("error", "BUSY"),
+                                                                                        ("method", "m", [], False, None)])])))
     W.append(("K_java_iface_named_after_file", ("java",), fs1([("iface", "IWit", None, [("method", "m", [("in", "uint32", None, "p0")], False, None)])], path="IWit.idl")))
     return W
 
@@ -673,7 +675,7 @@ def run(ctx_):
         "rule": "%d generated valid file sets (1-3 files with includes, constants, nested structs with objects, hierarchies of any depth, every parameter kind, optional methods; "
                 "every third also with --no-typed-objects), every file as main file: stub TU, skeleton TU and a conforming user TU, gcc + clang (C, -Wall -Wextra -Werror "
                 "-Wno-unused-parameter) and g++ + clang++ (C++, also -Wno-missing-field-initializers); the Rust modules with implementations of every trait under deny(warnings) "
-                "with allow(unused, nonstandard_style) on generated code; Java with javac against the stand-in runtime; fixed witnesses of 8 known classes; %d single-method "
+                "with allow(unused, nonstandard_style) on generated code; Java with javac against the stand-in runtime; fixed witnesses of the known classes; %d single-method "
                 "interfaces whose parameter is called like a local of the generated code or not (model Emit.shadows decides which must fail); %d class-0 Java methods with user code; "
                 "non-trivial = a clean case or a name case" % (ncases, nname, njava),
         "samples": [{"idl": {f["path"]: gen.render_file(f) for f in jobs[0][1]["files"]}}],
